@@ -100,14 +100,19 @@ class Prover:
         R = int(os.environ.get("NUCSVC_RLIMIT", "60000000"))
         if T > 100000:
             R = R * 3  # contracts that ask for a larger budget (semantic variants)
-        if getattr(self, "unknowns", 0):
-            R = max(R // 6, 5000000)  # the function is already not fully proved: do not spend the full budget on every further goal
+        uk = getattr(self, "unknowns", 0)
+        if uk >= 3:
+            R = 2000000  # the function is already not proved: the remaining goals only get a token budget (fail fast)
+        elif uk:
+            R = max(R // 6, 5000000)
         r = z3.unknown
         m = None
         # unstable queries: several attempts with different seeds before giving up (unknown is never a verdict)
         for seed, budget in ((0, R // 10), (1, R // 10), (2, R // 10), (3, R // 4), (0, R), (4, 2 * R)):
             s = z3.Solver()
-            s.set("timeout", 900000)
+            # wall-clock backstop, generous w.r.t. the unloaded run (heaviest discharged obligation: ~10 s): the resource budget decides first
+            cap = 5000 if uk >= 3 else (30000 if uk else 90000)
+            s.set("timeout", int(max(10000 if not uk else 3000, min(cap, cap * budget / (2.0 * R)))))
             s.set("rlimit", budget)
             if seed:
                 s.set("random_seed", seed)
